@@ -70,8 +70,8 @@ def ensureWriter (c : Cfg) (nextId : Nat) (a : ATopic) : Nat × ATopic × ABlk :
     let w : ABlk := { id := nextId, limit := c.blockSize, es := [] }
     (nextId + 1, { a with writer := some w }, w)
 
-/-- `Writer::write` -/
-def write (c : Cfg) (nextId : Nat) (a : ATopic) (w : ABlk) (long : Bool) (pay : Pay) :
+/-- `Writer::write` below the size check -/
+def writeCore (c : Cfg) (nextId : Nat) (a : ATopic) (w : ABlk) (long : Bool) (pay : Pay) :
     Nat × ATopic × Option ErrKind :=
   let need := raw c pay
   if w.used c + need > w.limit then
@@ -84,6 +84,11 @@ def write (c : Cfg) (nextId : Nat) (a : ATopic) (w : ABlk) (long : Bool) (pay : 
       else (nextId + 1, { a with writer := some { nb with es := [pay] } }, none)
   else if long then (nextId, a, some .invalidData)
   else (nextId, { a with writer := some { w with es := w.es ++ [pay] } }, none)
+
+/-- `Writer::write`: an entry that no block can hold is rejected before any state changes -/
+def write (c : Cfg) (nextId : Nat) (a : ATopic) (w : ABlk) (long : Bool) (pay : Pay) :
+    Nat × ATopic × Option ErrKind :=
+  if raw c pay > c.maxAlloc then (nextId, a, some .invalidInput) else writeCore c nextId a w long pay
 
 /-- planning + writing of `batch_write` (no faults): the chain gains the sealed blocks, the
 writer block gains the planned entries; `none` = an `alloc_block` failed -/
@@ -98,7 +103,7 @@ def batchPlan (c : Cfg) : List Pay → Nat → ATopic → ABlk → Nat × ATopic
       if want = 0 ∨ want > c.maxAlloc then (nextId, a, w, false)
       else batchPlan c rest (nextId + 1) a { id := nextId, limit := unitsFor c want, es := [pay] }
 
-def batchWrite (c : Cfg) (nextId : Nat) (a : ATopic) (w : ABlk) (long : Bool) (batch : List Pay) :
+def batchWriteCore (c : Cfg) (nextId : Nat) (a : ATopic) (w : ABlk) (long : Bool) (batch : List Pay) :
     Nat × ATopic × Option ErrKind :=
   if batch.length > c.cap then (nextId, a, some .invalidInput)
   else if (batch.map (raw c)).sum > c.maxBatchBytes then (nextId, a, some .invalidInput)
@@ -111,6 +116,13 @@ def batchWrite (c : Cfg) (nextId : Nat) (a : ATopic) (w : ABlk) (long : Bool) (b
       -- the seals stay; the writer keeps the block it switched to, *without* the planned entries
       -- of this batch (they were never written); see Eng.writerBatchWrite
       (nextId, { a with writer := some { w' with es := if w'.id = w.id then w.es else [] } }, some .invalidInput)
+
+/-- `Writer::batch_write`: a batch with an entry that no block can hold is rejected before any state changes -/
+def batchWrite (c : Cfg) (nextId : Nat) (a : ATopic) (w : ABlk) (long : Bool) (batch : List Pay) :
+    Nat × ATopic × Option ErrKind :=
+  if decide (batch.length ≤ c.cap) && decide ((batch.map (raw c)).sum ≤ c.maxBatchBytes) &&
+      batch.any (fun x => decide (raw c x > c.maxAlloc)) then (nextId, a, some .invalidInput)
+  else batchWriteCore c nextId a w long batch
 
 /-! ### reads -/
 
